@@ -561,14 +561,7 @@ func impostor(res *core.Result, r *rand.Rand, idA, idB, idM *m.Address, recorded
 	res.Case("reflect|self-connect-both-roles|"+class.name, true)
 }
 
-func parallel(n int, fn func(w int)) {
-	var wg sync.WaitGroup
-	for w := 0; w < n; w++ {
-		wg.Add(1)
-		go func(w int) { defer wg.Done(); fn(w) }(w)
-	}
-	wg.Wait()
-}
+func parallel(n int, fn func(w int)) { core.Parallel(n, fn) }
 
 var errNoBaseline = errors.New("no baseline")
 
